@@ -429,3 +429,8 @@ Theorem fsign_id eps1 x : 0 < eps1 -> eps1 <= Rabs x -> fsign ROps eps1 x = x.
 Proof.
   intros He. unfold fsign. rnorm. unfold Rabs. rcases; intros; try lra; try nra.
 Qed.
+(* hence the guard commutes with a change of units g on every gradient that is above the threshold in BOTH unit systems *)
+Theorem fsign_commutes_above_threshold eps1 g x : 0 < eps1 -> eps1 <= Rabs x -> eps1 <= Rabs (g * x) ->
+  fsign ROps eps1 (g * x) = g * fsign ROps eps1 x.
+Proof. intros He Hx Hgx. rewrite (fsign_id eps1 x He Hx). exact (fsign_id eps1 (g * x) He Hgx). Qed.
+
